@@ -433,6 +433,15 @@ def _spec_obs(st):
   return {'ready': ready, 'ok': ok, 'exn': c['exc'], 'vk': vk, 'val': list(val['val']) if vk in ('int', 'list') else []}
 
 
+def _slim(st):
+  """Keep only what the replay reads."""
+  keep = ('acomb', 'an', 'onhub', 'fnk', 'retid', 'cell', 'phase')
+  out = {k: st[k] for k in keep if k in st}
+  out['runq'] = [0] * len(st.get('runq', []))
+  out['aruns'] = [0] * len(st.get('aruns', []))
+  return out
+
+
 def _replay_one(script):
   beh = script['behaviour']
   loop = common.boot()
@@ -486,7 +495,8 @@ def replay_behaviours(prop, tier, seed):
     r, behs = tlc.simulate_behaviours('AsyncImpl', cfg, num=num, depth=40, seed=int(seed) + 1, timeout=900)
     if not behs:
       raise RuntimeError('no behaviours from TLC simulate (%s):\n%s' % (cfg, r.stdout[-2000:]))
-    scripts = [{'behaviour': [[a, s] for a, s in b]} for b in behs]
+    scripts = [{'behaviour': [[a, _slim(s)] for a, s in b]} for b in behs]
+    del behs   # keep the parent small: it is forked once per behaviour
     res = common.run_forked(_replay_one, scripts)
     errs = [x['err'] for x in res if 'err' in x]
     if errs:
